@@ -80,7 +80,7 @@ for v in variants:
         res = {}
         for c in [prop] + also:
             t0 = time.time()
-            e = dict(os.environ, VERIF_DASSH_SRC=wt)
+            e = dict(os.environ, VERIF_DASSH_SRC=wt, VERIF_OUT_DIR=os.path.join(wt, '_vout'))
             r = subprocess.run([os.path.join(HERE, 'check'), c, '--tier', tier], env=e,
                                stdout=subprocess.PIPE, stderr=subprocess.STDOUT)
             txt = r.stdout.decode(errors='replace')
